@@ -129,6 +129,7 @@ func (c *FnCtx) chanSend(fr *Frame, st *State, x *ssa.Send) {
 	en := c.sendEnabled(st, ch)
 	c.nonblock(fr, st, key, en)
 	st.pc = c.vc.Name("pc", And(st.pc, en))
+	c.opCover(fr, st, key, st.pc)
 	c.event(st, "send", ch)
 	c.applySend(st, ch, TTrue)
 	c.ogAfter(fr, st, key, nil)
@@ -145,6 +146,7 @@ func (c *FnCtx) chanRecv(fr *Frame, st *State, x *ssa.UnOp) SV {
 	en := c.recvEnabled(st, ch)
 	c.nonblock(fr, st, key, en)
 	st.pc = c.vc.Name("pc", And(st.pc, en))
+	c.opCover(fr, st, key, st.pc)
 	c.event(st, "recv", ch)
 	ok := c.applyRecv(st, ch, TTrue)
 	v := c.freshValue(et, "recv")
@@ -202,6 +204,9 @@ func (c *FnCtx) selectOp(fr *Frame, st *State, x *ssa.Select) SV {
 	}
 	st.pc = c.vc.Name("pc", And(append([]Term{st.pc}, chosenFacts...)...))
 	out.Elems[1] = Sc{c.vc.Name("selok", recvOk)}
+	for i, ck := range afterKeys {
+		c.opCover(fr, st, ck, And(st.pc, Eq(idx, IntLit(int64(i)))))
+	}
 	// ghost updates of the chosen case, then the guarantee
 	for i, ck := range afterKeys {
 		c.ogApplyAfters(fr, st, ck, Eq(idx, IntLit(int64(i))), map[string]SV{"opOk": Sc{recvOk}})
@@ -209,6 +214,17 @@ func (c *FnCtx) selectOp(fr *Frame, st *State, x *ssa.Select) SV {
 	c.ogGuarantee(fr, st, key)
 	c.selectIdx[x] = idx
 	return out
+}
+
+// opCover: reachability cover "this blocking operation can complete" (every tier): if the model has no execution in which the send / receive / select case
+// goes through, everything checked after it on that path holds vacuously.
+func (c *FnCtx) opCover(fr *Frame, st *State, key string, pc Term) {
+	if fr.depth != 0 || key == "" || c.inSpec > 0 {
+		return
+	}
+	tmp := &State{pc: pc}
+	cv := c.addObl("vacuity", "completes:"+key, nil, tmp, TFalse, nil)
+	cv.Kind = "cover"
 }
 
 func (c *FnCtx) doClose(fr *Frame, st *State, ch Term, site ssa.Instruction) {
